@@ -240,6 +240,7 @@ func (g *Gen) Step() bool {
 			choice{g.wt("aliasburst") * boolInt(len(g.qnames) > 0), func() { g.opAliasBurst(conns) }},
 			choice{g.wt("qburst") * boolInt(len(g.qnames) > 0), func() { g.opQBurst() }},
 			choice{g.wt("resetfail"), func() { g.opResetFailBurst() }},
+			choice{g.wt("httpburst"), func() { g.opHTTPBurst() }},
 			choice{g.wt("hostilereq"), func() { g.opHostileReq(conns) }},
 		)
 	}
@@ -809,6 +810,53 @@ func (g *Gen) opThrottleBurst(conns []*Client) {
 			g.w.Exec(Op{K: "creq", C: c.Idx, ID: g.nextID(c), M: "get." + rid})
 		default:
 			g.w.Exec(Op{K: "creq", C: c.Idx, ID: g.nextID(c), M: "subscribe." + rid})
+		}
+	}
+}
+
+// opHTTPBurst: an HTTP GET, and while its resource (or part of its tree) is
+// still loading, events for that resource: a reaccess event, custom events, a
+// mutation. An HTTP request holds them back, and is a closed connection once it
+// is answered: nothing may be requested for it afterwards.
+func (g *Gen) opHTTPBurst() {
+	var names []string
+	for _, n := range g.names {
+		if !strings.Contains(n, "{") {
+			names = append(names, n)
+		}
+	}
+	if len(names) == 0 {
+		return
+	}
+	name := g.sample("hbname", names)
+	api := g.w.Cfg.APIPath
+	if api == "" {
+		api = "/api/"
+	}
+	if !strings.HasSuffix(api, "/") {
+		api += "/"
+	}
+	p, _ := ridToPath(name)
+	g.http++
+	g.w.Exec(Op{K: "http", C: g.http, M: "GET", S: api + p})
+	if rapid.Bool().Draw(g.t, "hbget") {
+		// the root's own get answered, its references still loading
+		for _, pv := range g.w.PendingSorted() {
+			if pv.P.Subject == "get."+name && pv.P.Query == "" {
+				g.w.Exec(Op{K: "ans", S: pv.P.Subject, Q: pv.P.Query, A: actorEnc(pv.Actor), N: pv.Ord, O: "ok"})
+				break
+			}
+		}
+	}
+	n := rapid.IntRange(1, 3).Draw(g.t, "hbn")
+	for i := 0; i < n; i++ {
+		switch rapid.IntRange(0, 3).Draw(g.t, "hbkind") {
+		case 0, 1:
+			g.w.Exec(Op{K: "reaccess", S: name})
+		case 2:
+			g.w.Exec(Op{K: "custom", S: name, M: "custom"})
+		default:
+			g.mutate("mut", name, "")
 		}
 	}
 }
